@@ -58,4 +58,68 @@ def readInt (s : List Char) : Option Int :=
   | '-' :: t => if t.isEmpty then none else (digits 10 t 0).map fun n => -(n : Int)
   | _ => if s.isEmpty then none else (digits 10 s 0).map fun n => (n : Int)
 
+/-! ### string literals (ECMA-262 §12.9.4 incl. Annex B legacy octal escapes), values as UTF-16 code units -/
+
+/-- UTF16EncodeCodePoint -/
+def utf16Encode (cp : Nat) : List Nat :=
+  if cp < 65536 then [cp] else [55296 + (cp - 65536) / 1024, 56320 + (cp - 65536) % 1024]
+
+def units16 : List Char → List Nat
+  | [] => []
+  | c :: cs => utf16Encode c.toNat ++ units16 cs
+
+def isLineTerminator (c : Char) : Bool := c.toNat = 10 || c.toNat = 13 || c.toNat = 8232 || c.toNat = 8233
+
+def octalValue : List Char → Option Nat
+  | [] => none
+  | ds => digits 8 ds 0
+
+/-- `\\` followed by one character that is not `x` or `u` -/
+def singleEscape (c : Char) : List Nat :=
+  if isLineTerminator c then []                                  -- LineContinuation
+  else if c = '\'' then [39] else if c = '"' then [34] else if c = '\\' then [92]
+  else if c = 'b' then [8] else if c = 'f' then [12] else if c = 'n' then [10]
+  else if c = 'r' then [13] else if c = 't' then [9] else if c = 'v' then [11]
+  else if '0' ≤ c ∧ c ≤ '7' then [c.toNat - 48]                  -- `\0` and single-digit legacy octal
+  else utf16Encode c.toNat                                       -- NonEscapeCharacter (incl. `\8`, `\9`): itself
+
+/-- the value of ONE escape sequence (backslash included): `none` if the text is not an escape sequence of the
+    (sloppy-mode) grammar; `some []` for a line continuation -/
+def escapeValue (e : List Char) : Option (List Nat) :=
+  match e with
+  | '\\' :: 'x' :: hs => if hs.length = 2 then (digits 16 hs 0).map fun v => [v] else none
+  | '\\' :: 'u' :: '{' :: rest =>
+    (match rest.getLast? with
+     | some '}' =>
+       if rest.dropLast.isEmpty then none
+       else (match digits 16 rest.dropLast 0 with
+         | some cp => if cp ≤ 1114111 then some (utf16Encode cp) else none
+         | none => none)
+     | _ => none)
+  | '\\' :: 'u' :: hs =>
+    -- one code unit, possibly a lone surrogate
+    if hs.length = 4 then (digits 16 hs 0).map fun v => [v] else none
+  | ['\\', c] => some (singleEscape c)
+  | ['\\', c, d] =>
+    if c.toNat = 13 ∧ d.toNat = 10 then some []                  -- line continuation <CR><LF>
+    else if isOctal c ∧ isOctal d then (digits 8 [c, d] 0).map fun v => [v]
+    else none
+  | ['\\', c, d, f] =>
+    if '0' ≤ c ∧ c ≤ '3' ∧ isOctal d ∧ isOctal f then (digits 8 [c, d, f] 0).map fun v => [v] else none
+  | _ => none
+
+/-- the value of a string literal given as fragments and escape sequences -/
+inductive Seg where
+  | fragment (s : List Char)
+  | escape (s : List Char)
+deriving DecidableEq, Repr
+
+def stringValue : List Seg → Option (List Nat)
+  | [] => some []
+  | .fragment s :: rest => (stringValue rest).map (units16 s ++ ·)
+  | .escape e :: rest =>
+    match escapeValue e with
+    | some v => (stringValue rest).map (v ++ ·)
+    | none => none
+
 end QV.Spec.Ecma
